@@ -301,6 +301,13 @@ func (c *FnCtx) evalCall(st *State, call *ast.CallExpr) []Term {
 // applyContract: assert requires, havoc the modifies footprint, assume ensures.
 func (c *FnCtx) applyContract(st *State, fc *FuncContract, sig *types.Signature, recv Term, recvVar *types.Var, args []Term, pos token.Pos, key string, calleePkg string) []Term {
 	env := map[string]Term{}
+	if strings.Contains(key, "$") {
+		// contract of a func-valued parameter / field (a callback contract): it may mention the
+		// caller's own names (e.g. the size the enclosing function was asked to reserve)
+		for k, v := range c.specCtx(st).env {
+			env[k] = v
+		}
+	}
 	if recvVar != nil {
 		name := recvVar.Name()
 		if name == "" || name == "_" {
@@ -447,20 +454,13 @@ func (c *FnCtx) havocDesignator(st *State, m string, sc *SpecCtx, pre *State) {
 	if !ok {
 		panic(toolErr("modifies %q: expected Type.field, expr.field, expr[*], ghost or alloc", m))
 	}
-	if id, ok := f.X.(*SIdent); ok {
-		if _, bound := sc.env[id.Name]; !bound {
-			if n := sc.lookupTypeName(id.Name); n != nil {
-				stt := n.Underlying().(*types.Struct)
-				for i := 0; i < stt.NumFields(); i++ {
-					if stt.Field(i).Name() == f.Name {
-						arr := c.fieldArr(st, n, stt.Field(i))
-						c.heapSet(st, fieldKey(n, f.Name), c.freshHeap(fieldKey(n, f.Name), arr.Sort))
-						return
-					}
-				}
-			}
-			panic(toolErr("modifies %q: unknown type or field", m))
+	if n := sc.typeDesignator(f.X); n != nil {
+		if fv := structField(n, f.Name); fv != nil {
+			arr := c.fieldArr(st, n, fv)
+			c.heapSet(st, fieldKey(n, f.Name), c.freshHeap(fieldKey(n, f.Name), arr.Sort))
+			return
 		}
+		panic(toolErr("modifies %q: unknown field", m))
 	}
 	psc := *sc
 	psc.st = pre
